@@ -10,10 +10,10 @@ prop(
     needs_bin=True,
     stages=[
         dict(run="^TestPropToggle$",
-             quick=dict(checks=16, shards=16, timeout=900),
-             thorough=dict(checks=960, shards=16, timeout=7200)),
+             quick=dict(checks=16, shards=16, timeout=900, shrinktime="8s"),
+             thorough=dict(checks=480, shards=16, timeout=7200)),
         dict(run="^TestPropBinary$",
-             quick=dict(checks=4, shards=4, timeout=900),
+             quick=dict(checks=4, shards=4, timeout=900, shrinktime="8s"),
              thorough=dict(checks=64, shards=16, timeout=7200)),
     ],
     rule="each generated document = a pint configuration enabling every configurable check kind (aggregate, annotation, label, cost, "
